@@ -481,11 +481,15 @@ def shrink_trace(t, still_fails, pid, rounds=14):
     """delta debugging over the events of a failing history (connection openings are kept): returns a smaller
     history on which still_fails(trace, impl_steps, model_steps) holds, or None if nothing could be removed"""
     try:
+        import time as _t
+        deadline = _t.time() + (40 if os.environ.get("VERIF_TIER", "quick") != "thorough" else 240)
         events = list(t.events)
         best = None
         n = 2
         for rd in range(rounds):
-            if len(events) < 3:
+            # shrinking is a convenience for the reader of the replay: it never takes more than its time budget (a change that makes
+            # connections stall makes every candidate history slow)
+            if len(events) < 3 or _t.time() > deadline:
                 break
             size = max(1, len(events) // n)
             cands = []
@@ -1964,6 +1968,13 @@ def check_C08(res):
         for asker in (6, 0, 4):
             t.line(asker, "NAMES #m")
             t.line(asker, "WHO #m")
+        # enforcement of the ranks just granted, deterministic part: a mere half-operator (dave) against an operator (bob), a protected
+        # member (carol), a founder (alice) and a voiced member (erin); an operator against a half-operator (seeded C08-c)
+        for actor, victim in [(3, "bob"), (3, "carol"), (3, "alice"), (1, "dave")]:
+            t.line(actor, "KICK #m %s :rank against rank" % victim)
+            t.line(0, "NAMES #m")
+        t.line(3, "JOIN #m")
+        t.line(0, "MODE #m +h dave")
         order = [(2, "bob"), (2, "dave"), (2, "erin"), (3, "carol"), (4, "bob"), (1, "carol"), (2, "alice"), (1, "alice"), (3, "bob")]
         rng.shuffle(order)
         for actor, victim in order[:6]:
@@ -3080,6 +3091,10 @@ def end_oracle(t, steps):
             line = ev[2] if ev[0] == "L" and isinstance(ev[2], str) else ""
             only_end = ev[0] in ("X", "B") or first_verb(line) in ("QUIT", "KILL", "DIE", "SQUIT")
             for c, n in ended:
+                if n not in prev["users"]:
+                    # the connection was registered (it was welcomed) yet the user table did not hold its nick: ownership is already broken
+                    fails.append(("connection %d ended as %s, which the user table did not hold before the step" % (c, n), {"step": s["k"]}))
+                    continue
                 if n in d["users"]:
                     fails.append(("connection %d (%s) ended at step %d but the user is still registered" % (c, n, s["k"]), {"step": s["k"]}))
                 for chn, ch in d["channels"].items():
@@ -3091,7 +3106,9 @@ def end_oracle(t, steps):
                 if len(ha) != len(hp) + 1 or ha[:-1] != hp or ha[-1] != prev["users"][n]["hist"]:
                     fails.append(("%s ended but WHOWAS history went from %r to %r" % (n, hp, ha), {"step": s["k"]}))
                 for chn in prev["users"][n]["channels"]:
-                    chp = prev["channels"][chn]
+                    chp = prev["channels"].get(chn)
+                    if chp is None:
+                        continue
                     if set(chp["users"]) - set(x[1] for x in ended) == set() and not chp["preconfigured"] and chn in d["channels"]:
                         fails.append(("%s left %s empty but the channel still exists" % (n, chn), {"step": s["k"]}))
             if ended and only_end:
